@@ -312,6 +312,7 @@ func runC03(rc *RunCtx) {
 	}
 	c03NearMisses(rc)
 	c03DomainSweep(rc)
+	c03CallerShapes(rc)
 	ProbeHistory(rc, rc.Pick(200, 800), false)
 	// hostile history on top
 	for h := 0; h < rc.Pick(1, 3); h++ {
@@ -492,4 +493,55 @@ func firstKeys(m map[string]int, n int) []string {
 		}
 	}
 	return out
+}
+
+// ShapedAddrs: 20-byte account addresses with remarkable byte patterns - leading zero bytes (about one account in 256 has
+// one), trailing zero bytes, a single non-zero byte at either end, bytes that are separators or text markers elsewhere
+// ('/', '0', 'x', ',', ' '), all 0xff. An address is 20 opaque bytes; a 32-byte word names it iff its low 20 bytes equal it
+// and its high 12 bytes are zero.
+func ShapedAddrs() [][]byte {
+	st := func(n int, tail ...byte) []byte { // n leading zero bytes, then structured non-zero bytes, then tail
+		b := make([]byte, 20)
+		for j := n; j < 20; j++ {
+			b[j] = byte(0x41 + j)
+		}
+		copy(b[20-len(tail):], tail)
+		return b
+	}
+	one := func(i int, v byte) []byte { b := make([]byte, 20); b[i] = v; return b }
+	txt := func(lead string) []byte { b := st(0); copy(b, lead); return b }
+	return [][]byte{st(1), st(2), st(3), st(8), st(11), st(12), st(19), st(0, 0), st(0, 0, 0), st(1, 0), st(0, 0, 0, 0, 0, 0, 0, 0, 0),
+		one(0, 1), one(19, 1), one(0, 0x80), one(10, 0xff), bytesOf(0xff, 20), txt("0x"), txt("0X"), txt("/"), txt("//"), txt(" "), txt(","), txt("\x00/")}
+}
+
+// c03CallerShapes: for every shaped address A, a plain message and a burn message (minting to A) that name A as destination
+// caller are received when A submits them and refused when somebody else does; the model judges every case.
+func c03CallerShapes(rc *RunCtx) {
+	e, err := c03Engine(rc, false, false)
+	if err != nil {
+		rc.Cov.Inconclusive("c03 caller shapes engine: " + err.Error())
+		return
+	}
+	nonce := uint64(8_800_000 + rc.Shard*100000)
+	for i, a := range ShapedAddrs() {
+		if i%rc.NShards != rc.Shard {
+			continue
+		}
+		who := Bech(a)
+		for _, module := range []bool{false, true} {
+			for _, by := range []string{Acct(OtherIx), who} {
+				nonce++
+				in := &InMsg{Version: 0, Src: 0, Dst: 4, Nonce: nonce, Sender: Structured32(0x31), Recipient: Structured32(0x61), Caller: ref.Pad32(a), Body: []byte("for a designated relayer")}
+				if module {
+					in = StdInbound(nonce, 1, big.NewInt(int64(20+i)))
+					in.Caller = ref.Pad32(a)
+					in.Body = BurnBody(0, Token(0), ref.Pad32(a), big.NewInt(int64(20+i)), Structured32(0x33))
+				}
+				raw := in.Bytes()
+				r := e.Exec(Tx{Msgs: msgs1(&ct.MsgReceiveMessage{From: by, Message: raw, Attestation: e.Attest(raw, i%3)}),
+					Note: fmt.Sprintf("C03 caller shapes: destination caller %x, module=%v, submitted by %s", a, module, map[bool]string{true: "that account", false: "somebody else"}[by == who])})
+				rc.Cov.Cell("C03_caller_shapes", fmt.Sprintf("%s/%s/%s", map[bool]string{true: "burn", false: "plain"}[module], map[bool]string{true: "named", false: "other"}[by == who], okWord(r.OK)))
+			}
+		}
+	}
 }
